@@ -38,8 +38,16 @@ def main():
 
         for f in glob.glob(os.path.join(vlib.REPLAYS, "%s-*.json" % pid)):
             os.remove(f)
+        if hasattr(mod, "pre"):
+            mod.pre(res)
         if not a.no_lean:
-            vlib.prove(res, pid, thorough=(a.tier == "thorough"))
+            if getattr(res, "gen_error", None):
+                th = vlib.load_theorems()[pid]
+                res.obligations = list(th["theorems"])
+                for n in th["theorems"]:
+                    res.proof_failures.append((n, "model could not be regenerated from the source: " + res.gen_error))
+            else:
+                vlib.prove(res, pid, thorough=(a.tier == "thorough"))
         mod.run(res, a.tier)
         sys.exit(res.finish())
     except SystemExit:
